@@ -58,7 +58,7 @@ theorem stnet_available_evses_tie (p : PyStNet K) (s : Net) (ha : Abs p s) (hw :
   rw [ha.stations, ha.occ]
   exact available_aux p.evses hw.keys_nodup
 
-theorem mem_free' {s : Net} {st : Station} (h : st ∈ s.free) : st ∈ s.stations ∧ s.occ st = none := by
+theorem mem_free_st {s : Net} {st : Station} (h : st ∈ s.free) : st ∈ s.stations ∧ s.occ st = none := by
   simp only [Net.free, List.mem_filter, Option.isNone_iff_eq_none] at h
   exact h
 
@@ -97,13 +97,15 @@ def evseVacated (evse : PyStEvse K) : PyStEvse K := { evse with ev := none, pilo
 theorem choice_cons (ρ : Nat) (f : String) (fs : List String) :
     pyChoice ρ (f :: fs) = .ok ((f :: fs).getD (ρ % (fs.length + 1)) f) := by
   unfold pyChoice
-  have hlt : ρ % (fs.length + 1) < (f :: fs).length := by simp [Nat.mod_lt]
+  have hlt : ρ % (fs.length + 1) < (f :: fs).length := by
+    rw [List.length_cons]; exact Nat.mod_lt _ (Nat.succ_pos _)
   simp only [List.length_cons]
   rw [List.getElem?_eq_getElem hlt]
   simp [List.getD_eq_getElem?_getD, List.getElem?_eq_getElem hlt]
 
 theorem getD_mem (f : String) (fs : List String) (k : Nat) : (f :: fs).getD (k % (fs.length + 1)) f ∈ f :: fs := by
-  have hlt : k % (fs.length + 1) < (f :: fs).length := by simp [Nat.mod_lt]
+  have hlt : k % (fs.length + 1) < (f :: fs).length := by
+    rw [List.length_cons]; exact Nat.mod_lt _ (Nat.succ_pos _)
   rw [List.getD_eq_getElem?_getD, List.getElem?_eq_getElem hlt]
   simp only [Option.getD_some]
   exact List.getElem_mem hlt
@@ -160,7 +162,7 @@ theorem stnet_plugin_tie (p : PyStNet K) (s : Net) (ev : PyStEv K) (sid : Option
       · cases h; rfl
   | cons f fs =>
     have hmem : (f :: fs).getD (cs s.draws % (fs.length + 1)) f ∈ s.free := by rw [hf]; exact getD_mem f fs _
-    obtain ⟨hst, hocc⟩ := mem_free' hmem
+    obtain ⟨hst, hocc⟩ := mem_free_st hmem
     obtain ⟨evse, hg, he⟩ := free_evse p s ha _ hst hocc
     have hm : s.plugin cs ev.session =
         ({ s.modEv ev.session (fun r => { r with station := some ((f :: fs).getD (cs s.draws % (fs.length + 1)) f) })
